@@ -6,9 +6,10 @@ import (
 
 // C04.status: the overall status computed from an end-of-run state matches what happened.
 // Pre-state constrained by invariant J (asserted on RUN by C04.inv):
-//   some node failed            => lastError != nil
-//   lastError != nil            => some node failed or canceled
-//   not stopped && some node canceled => lastError != nil (deadline, or downstream of a failed step)
+//
+//	some node failed            => lastError != nil
+//	lastError != nil            => some node failed or canceled
+//	not stopped && some node canceled => lastError != nil (deadline, or downstream of a failed step)
 func vfHarnessC04Status(n int) {
 	steps := vfBuildSteps(n)
 	g, err := NewExecutionGraph(vfQuietLogger(), steps...)
